@@ -1,9 +1,55 @@
 import NmVerif.Proto
+import NmVerif.Kernel
 namespace NmVerif.Driver.C13
-open NmVerif NmVerif.Proto
+open NmVerif NmVerif.Proto NmVerif.Kernel
 
-def handle : Handler := fun op _args =>
+/-- row-major array denotation of a flat list (the host result handed to the model) -/
+def arrOfFlat (shape : Shape) (flat : List Int) : Arr Int :=
+  ⟨shape, fun i => flat.getD (computeOffset i (strides shape)) 0⟩
+
+def pairs (ll : List (List Nat)) : Option (List (Nat × Nat)) :=
+  ll.mapM fun l => match l with | [t, b] => some (t, b) | _ => none
+
+def handle : Handler := fun op a =>
   match op with
+  | "c13_kern" => orBad do
+      -- model of one launch: shape = output shape, res = flattened host result, init = sentinel in the output buffer
+      let shape ← a.nats "shape"
+      let res ← a.ints "res"
+      let init ← a.int "init"
+      let bsz ← a.nat "bsz"
+      let sched ← (a.natLists "sched").bind pairs
+      let out0 ← createMutableArray (List.replicate (prod shape) init) shape shape.length
+      match runSchedule (arrOfFlat shape res) bsz out0 sched with
+      | some o =>
+        let eq := decide (o.data = res)
+        pure s!"ok shape={fmtNats shape} out={fmtInts o.data} hosteq={if eq then 1 else 0}"
+      | none => pure "ub"
+  | "c13_mkarr" => orBad do
+      -- create_array / create_mutable_array from a raw triple; elements listed in row-major index order
+      let data ← a.ints "data"
+      let sp ← a.nats "shapeptr"
+      let dim ← a.nat "dim"
+      let mode := (a.get? "mode").getD "ref"
+      if mode == "ref" then
+        match createArray data sp dim with
+        | none => pure "ub"
+        | some v =>
+          match (allIdx v.shape).mapM v.get? with
+          | some els => pure s!"ok shape={fmtNats v.shape} data={fmtInts els}"
+          | none => pure "oob"
+      else
+        match createMutableArray data sp dim with
+        | none => pure "ub"
+        | some v =>
+          match (allIdx v.shape).mapM v.get? with
+          | some els => pure s!"ok shape={fmtNats v.shape} data={fmtInts els}"
+          | none => pure "oob"
+  | "c13_koff" => orBad do
+      let t ← a.nat "tid"
+      let b ← a.nat "bid"
+      let bsz ← a.nat "bsz"
+      pure s!"ok {threadOffset bsz (t, b)}"
   | _ => none
 
 end NmVerif.Driver.C13
